@@ -185,7 +185,9 @@ let () =
                     then mem_bad := (!mem_calls, "attach_memory_object " ^ b.raw_objs.(ins)) :: !mem_bad
                 | None -> ()); p14 := None
        | 5 -> (match !p4 with
-               | Some (d4, dm) -> print_endline (if merge_agrees d4 p.pd dm then "merge ok" else "merge DIFF")
+               | Some (d4, dm) -> print_endline (if merge_agrees d4 p.pd dm then "merge ok" else "merge DIFF");
+                                  (* hypotheses of level_merge_pass_keeps_children_ordered on the tree before the pass *)
+                                  print_endline (if merge_hypb d4 then "mergehyp 1" else "mergehyp 0")
                | None -> ()); p4 := None;
               p5 := Some p.pd
        | 0 ->
